@@ -216,6 +216,28 @@ def abs_magnitudes(interp, ref_mb, data, ctx=None):
     return out
 
 
+def drq_dependent_outputs(q, mb):
+    """(signature key, output name) pairs whose value depends on at least one operator resolved to dynamic-range mode;
+    every other output is computed by float kernels only and must agree to float32 rounding"""
+    m = pl.read(mb)
+    dep = set()
+    for sd in (m.signatureDefs or []):
+        sg = m.subgraphs[sd.subgraphIndex]
+        tainted = set()
+        for op in sg.operators:
+            key = orc.op_key_of(m.operatorCodes[op.opcodeIndex].builtinCode)
+            hot = any(i in tainted for i in op.inputs if i != -1)
+            if key is not None and not hot:
+                scope = "".join(pl.tname(sg.tensors[t]) + ";" for t in op.outputs if t != -1)
+                hot = orc.mode_of(q, key, scope)[0] == "drq"
+            if hot:
+                tainted.update(o for o in op.outputs if o != -1)
+        for tm in sd.outputs:
+            if tm.tensorIndex in tainted:
+                dep.add((sd.signatureKey.decode(), tm.name.decode()))
+    return dep
+
+
 def compare_float_modes(ctx, interp, case, res, fail):
     """C06: weight-only / float16 / dynamic-range models vs the float model with dequantized constants"""
     modes = modes_in(res["q"], case.mb) - {"none"}
@@ -232,13 +254,15 @@ def compare_float_modes(ctx, interp, case, res, fail):
     if b[0] != "ok":
         return
     ctx.tag("c06_" + "+".join(sorted(modes)))
-    drq = "drq" in modes
-    amag = abs_magnitudes(interp, ref, data, ctx) if drq else {}
+    any_drq = "drq" in modes
+    amag = abs_magnitudes(interp, ref, data, ctx) if any_drq else {}
+    drq_outs = drq_dependent_outputs(res["q"], case.mb) if any_drq else set()
     for sig in a[1]:
         for ra, rb in zip(a[1][sig], b[1][sig]):
             for k in ra:
                 if np.asarray(rb[k]).dtype == bool:
                     continue   # a mask flips when its operand moves across the threshold: no bound applies
+                drq = (sig, k) in drq_outs   # outputs fed by weight-only / float16 / float operators only get the tight bound
                 ya, yb = np.asarray(ra[k], dtype=np.float64), np.asarray(rb[k], dtype=np.float64)
                 if not np.all(np.isfinite(yb)):
                     continue
